@@ -193,6 +193,10 @@ def modelLine (s : MState) (line : String) : MState :=
   | ["inh", b, n] => match unbr b, unbr n with
     | some b, some n => s.emit (.call "inherit" "-" [b, n] :: inheritEvents b n)
     | _, _ => bad
+  | ["binaries", "on"] => s.emit [.note "binaries on"]
+  | ["ldb", n] => match unbr n with
+    | some n => s.emit (.call "binary" "-" [n] :: binaryEvents n)
+    | none => bad
   | ["ld", n] => match unbr n with
     | some n => s.emit (.call "load" "-" [n] :: (loadEvents [] n).1)
     | none => bad
